@@ -74,6 +74,8 @@ type Cache[K Key, V any] struct {
 	// Metrics contains a running log of important statistics like hits, misses,
 	// and dropped items.
 	Metrics *Metrics
+
+	verifLoop verifLoopState
 }
 
 // Config is passed to NewCache for creating new Cache instances.
@@ -271,8 +273,11 @@ func (c *Cache[K, V]) Wait() {
 		return
 	}
 	wait := make(chan struct{})
+	verifYield(verifSiteWaitSend, 0)
 	c.setBuf <- &Item[V]{wait: wait}
+	verifYield(verifSiteWaitRecv, 0)
 	<-wait
+	verifYield(verifSiteWaitDone, 0)
 }
 
 // Get returns the value (if any) and a boolean representing whether the
@@ -284,6 +289,7 @@ func (c *Cache[K, V]) Get(key K) (V, bool) {
 	}
 	keyHash, conflictHash := c.keyToHash(key)
 
+	verifYield(verifSiteGetPush, keyHash)
 	c.getBuf.Push(keyHash)
 	value, ok := c.storedItems.Get(keyHash, conflictHash)
 	if ok {
@@ -348,14 +354,18 @@ func (c *Cache[K, V]) SetWithTTL(key K, value V, cost int64, ttl time.Duration) 
 	// cost is eventually updated. The expiration must also be immediately updated
 	// to prevent items from being prematurely removed from the map.
 	if prev, ok := c.storedItems.Update(i); ok {
+		verifYield(verifSiteSetDetached, keyHash)
 		c.onExit(prev)
 		i.flag = itemUpdate
 	}
 	// Attempt to send item to cachePolicy.
+	verifYield(verifSiteSetSend, keyHash)
 	select {
 	case c.setBuf <- i:
+		verifEvent(verifEvSetQueued, keyHash, int64(i.flag), 0)
 		return true
 	default:
+		verifEvent(verifEvSetDropped, keyHash, int64(i.flag), 0)
 		if i.flag == itemUpdate {
 			// Return true if this was an update operation since we've already
 			// updated the storedItems. For all the other operations (set/delete), we
@@ -375,16 +385,19 @@ func (c *Cache[K, V]) Del(key K) {
 	keyHash, conflictHash := c.keyToHash(key)
 	// Delete immediately.
 	_, prev := c.storedItems.Del(keyHash, conflictHash)
+	verifYield(verifSiteDelDetached, keyHash)
 	c.onExit(prev)
 	// If we've set an item, it would be applied slightly later.
 	// So we must push the same item to `setBuf` with the deletion flag.
 	// This ensures that if a set is followed by a delete, it will be
 	// applied in the correct order.
+	verifYield(verifSiteDelSend, keyHash)
 	c.setBuf <- &Item[V]{
 		flag:     itemDelete,
 		Key:      keyHash,
 		Conflict: conflictHash,
 	}
+	verifYield(verifSiteDelSent, keyHash)
 }
 
 // GetTTL returns the TTL for the specified key and a bool that is true if the
@@ -432,8 +445,12 @@ func (c *Cache[K, V]) Close() {
 	c.Clear()
 
 	// Block until processItems goroutine is returned.
+	verifYield(verifSiteCloseStart, 0)
+	verifStopRequest(&c.verifLoop)
 	c.stop <- struct{}{}
+	verifYield(verifSiteCloseStopReq, 0)
 	<-c.done
+	verifYield(verifSiteCloseStopped, 0)
 	close(c.stop)
 	close(c.done)
 	close(c.setBuf)
@@ -450,18 +467,25 @@ func (c *Cache[K, V]) Clear() {
 		return
 	}
 	// Block until processItems goroutine is returned.
+	verifYield(verifSiteClearStart, 0)
+	verifStopRequest(&c.verifLoop)
 	c.stop <- struct{}{}
+	verifYield(verifSiteClearStopReq, 0)
 	<-c.done
+	verifYield(verifSiteClearStopped, 0)
 
 	// Clear out the setBuf channel.
 loop:
 	for {
+		verifYield(verifSiteClearDrain, 0)
 		select {
 		case i := <-c.setBuf:
 			if i.wait != nil {
+				verifEvent(verifEvClearMarker, 0, 0, 0)
 				close(i.wait)
 				continue
 			}
+			verifEvent(verifEvClearDrained, i.Key, int64(i.flag), 0)
 			if i.flag != itemUpdate {
 				// In itemUpdate, the value is already set in the storedItems.  So, no need to call
 				// onEvict here.
@@ -476,10 +500,12 @@ loop:
 	c.cachePolicy.Clear()
 	c.storedItems.Clear(c.onEvict)
 	// Only reset metrics if they're enabled.
+	verifYield(verifSiteClearMetrics, 0)
 	if c.Metrics != nil {
 		c.Metrics.Clear()
 	}
 	// Restart processItems goroutine.
+	verifYield(verifSiteClearRestart, 0)
 	go c.processItems()
 }
 
@@ -509,6 +535,8 @@ func (c *Cache[K, V]) RemainingCost() int64 {
 
 // processItems is ran by goroutines processing the Set buffer.
 func (c *Cache[K, V]) processItems() {
+	verifTaskStart(verifTaskApplier, c)
+	defer verifTaskEnd(verifTaskApplier)
 	startTs := make(map[uint64]time.Time)
 	numToKeep := 100000 // TODO: Make this configurable via options.
 
@@ -537,9 +565,12 @@ func (c *Cache[K, V]) processItems() {
 	}
 
 	for {
+		verifIdle(verifTaskApplier, &c.verifLoop)
 		select {
-		case i := <-c.setBuf:
+		case i := <-verifGate(c.setBuf, &c.verifLoop, verifCaseItems):
+			verifYield(verifSiteApplierItem, i.Key)
 			if i.wait != nil {
+				verifEvent(verifEvApplierMarker, 0, 0, 0)
 				close(i.wait)
 				continue
 			}
@@ -554,30 +585,41 @@ func (c *Cache[K, V]) processItems() {
 
 			switch i.flag {
 			case itemNew:
+				verifEvent(verifEvApplierNew, i.Key, i.Cost, 0)
 				victims, added := c.cachePolicy.Add(i.Key, i.Cost)
+				verifEvent(verifEvApplierAdded, i.Key, verifB2I(added), int64(len(victims)))
 				if added {
 					c.storedItems.Set(i)
 					c.Metrics.add(keyAdd, i.Key, 1)
 					trackAdmission(i.Key)
 				} else {
+					verifYield(verifSiteApplierReject, i.Key)
 					c.onReject(i)
 				}
 				for _, victim := range victims {
+					verifYield(verifSiteApplierVictim, victim.Key)
 					victim.Conflict, victim.Value = c.storedItems.Del(victim.Key, 0)
 					onEvict(victim)
 				}
 
 			case itemUpdate:
+				verifEvent(verifEvApplierUpdate, i.Key, i.Cost, 0)
 				c.cachePolicy.Update(i.Key, i.Cost)
 
 			case itemDelete:
+				verifEvent(verifEvApplierDelete, i.Key, 0, 0)
 				c.cachePolicy.Del(i.Key) // Deals with metrics updates.
 				_, val := c.storedItems.Del(i.Key, i.Conflict)
 				c.onExit(val)
 			}
-		case <-c.cleanupTicker.C:
+			verifEvent(verifEvApplierDone, i.Key, int64(i.flag), 0)
+		case <-verifGateTick(c.cleanupTicker.C, &c.verifLoop):
+			verifYield(verifSiteApplierTick, 0)
+			verifEvent(verifEvSweepBegin, 0, 0, 0)
 			c.storedItems.Cleanup(c.cachePolicy, onEvict)
-		case <-c.stop:
+			verifEvent(verifEvSweepEnd, 0, 0, 0)
+		case <-verifGate(c.stop, &c.verifLoop, verifCaseStop):
+			verifYield(verifSiteApplierStop, 0)
 			c.done <- struct{}{}
 			return
 		}
